@@ -2,6 +2,7 @@
 import MutagenModel.Model.DictEasyId3
 import MutagenModel.Proofs.DictView
 import MutagenModel.Proofs.DictEasyMp4
+import MutagenModel.Proofs.DictGuard
 set_option linter.unusedVariables false
 set_option linter.unusedSimpArgs false
 namespace Mutagen.Dict
@@ -11,7 +12,7 @@ open Mutagen
 
 theorem eiReg_keys_nodup : (easyId3Registry.map (·.key)).Nodup := by decide +kernel
 theorem eiReg_lower_all : easyId3Registry.all (fun e => decide (pyLower e.key = e.key)) = true := by decide +kernel
-theorem eiReg_nostar_all : easyId3Registry.all (fun e => !eiPlain e || !e.key.contains 42) = true := by decide +kernel
+theorem eiReg_nostar_all : easyId3Registry.all (fun e => !eiGood e || !e.key.contains 42) = true := by decide +kernel
 /-- HashKeys of the plain non-website entries: distinct -/
 theorem eiReg_hk_nodup : ((easyId3Registry.filter (fun e => eiPlain e && (hkOf e).isSome)).map hkOf).Nodup := by
   decide +kernel
@@ -49,7 +50,7 @@ theorem eiFind_of_plain (e : EIEntry) (he : e ∈ easyId3Registry) : eiFind e.ke
         simp [List.find?_cons, hne, ih h hn.2]
   simp [h1]
 
-theorem eiFind_plain_key (t : Text) (e : EIEntry) (h : eiFind t = some e) (hp : eiPlain e = true) :
+theorem eiFind_plain_key (t : Text) (e : EIEntry) (h : eiFind t = some e) (hp : eiGood e = true) :
     e ∈ easyId3Registry ∧ e.key = t := by
   unfold eiFind at h
   cases h1 : easyId3Registry.find? (fun x => decide (x.key = t)) with
@@ -77,8 +78,8 @@ theorem eiEntryOf_plain (e : EIEntry) (he : e ∈ easyId3Registry) : eiEntryOf (
 
 /-- the entry of a good registered key: a plain registry entry filed under the lower-cased key -/
 theorem eiEntryOf_good (k : PKey) (e : EIEntry) (kt : Text) (h : eiEntryOf k = some (e, kt)) (hg : eiGoodKey k = true) :
-    eiPlain e = true ∧ e ∈ easyId3Registry ∧ k = .str kt ∧ e.key = pyLower kt := by
-  have hp : eiPlain e = true := by simpa [eiGoodKey, h] using hg
+    eiGood e = true ∧ e ∈ easyId3Registry ∧ k = .str kt ∧ e.key = pyLower kt := by
+  have hp : eiGood e = true := by simpa [eiGoodKey, h] using hg
   cases k with
   | str t =>
     simp only [eiEntryOf, Option.map_eq_some_iff, Prod.mk.injEq] at h
@@ -298,21 +299,219 @@ theorem eiGet_some (s : Id3) (hs : EasyId3Inv s) (e : EIEntry) (he : e ∈ easyI
     · split at h1 <;> simp at h1
   · exact h1
 
-theorem eiNormKey_plain (e : EIEntry) (kt : Text) (hp : eiPlain e = true) : eiNormKey e kt = e.key := by
-  unfold eiPlain at hp; unfold eiNormKey
-  cases hkd : e.kind <;> simp only [hkd] at hp ⊢ <;> simp at hp
 
-theorem eiGet_kt (s : Id3) (e : EIEntry) (k1 k2 : Text) (hp : eiPlain e = true) : eiGet s e k1 = eiGet s e k2 := by
-  unfold eiPlain at hp; unfold eiGet
-  cases hkd : e.kind <;> simp only [hkd] at hp ⊢ <;> simp at hp
+/-! ### `website`: one WOAR frame per URL -/
 
-theorem eiGoodKey_plain (e : EIEntry) (he : e ∈ easyId3Registry) (hp : eiPlain e = true) :
+theorem startsWith_append (p u : Text) : startsWith p (p ++ u) = true := by
+  simp [startsWith]
+
+theorem lookup_delall (pre k : Text) (s : Id3) :
+    lookup k (delallPrefix pre s) = if startsWith pre k then none else lookup k s := by
+  induction s with
+  | nil => simp [delallPrefix]
+  | cons p t ih =>
+    obtain ⟨k', f⟩ := p
+    unfold delallPrefix at ih ⊢
+    by_cases hp : startsWith pre k' = true
+    · by_cases hk : k' = k
+      · subst hk; simp [List.filter_cons, hp, ih]
+      · simp [List.filter_cons, hp, ih, hk]
+    · simp only [Bool.not_eq_true] at hp
+      by_cases hk : k' = k
+      · subst hk; simp [List.filter_cons, hp]
+      · simp [List.filter_cons, hp, ih, hk]
+
+theorem lookup_woarPut_other (k : Text) (hk : startsWith pWOAR k = false) (l : List Text) :
+    ∀ base : Id3, lookup k (woarPut l base) = lookup k base := by
+  induction l with
+  | nil => intro base; rfl
+  | cons u t ih =>
+    intro base
+    have hne : ¬ pWOAR ++ u = k := by
+      intro e; rw [← e, startsWith_append] at hk; cases hk
+    show lookup k (woarPut t (insert (pWOAR ++ u) (.woar u) base)) = _
+    rw [ih, lookup_insert]; simp [hne]
+
+theorem filter_insert_in (P : Text → Bool) (k : Text) (f : IFrame) (hk : P k = true) (r : Id3) :
+    (insert k f r).filter (fun p => P p.1) = insert k f (r.filter (fun p => P p.1)) := by
+  induction r with
+  | nil => simp [insert, hk]
+  | cons q t ih =>
+    obtain ⟨k', f'⟩ := q
+    by_cases h : k' = k
+    · subst h; simp [insert, List.filter_cons, hk]
+    · by_cases hp : P k' = true
+      · simp [insert, h, List.filter_cons, hp, ih]
+      · simp [insert, h, List.filter_cons, hp, ih]
+
+theorem filter_insert_out (P : Text → Bool) (k : Text) (f : IFrame) (hk : P k = false) (r : Id3) :
+    (insert k f r).filter (fun p => P p.1) = r.filter (fun p => P p.1) := by
+  induction r with
+  | nil => simp [insert, hk]
+  | cons q t ih =>
+    obtain ⟨k', f'⟩ := q
+    by_cases h : k' = k
+    · subst h; simp [insert, List.filter_cons, hk]
+    · by_cases hp : P k' = true
+      · simp [insert, h, List.filter_cons, hp, ih]
+      · simp [insert, h, List.filter_cons, hp, ih]
+
+theorem filter_erase_out (P : Text → Bool) (k : Text) (hk : P k = false) (r : Id3) :
+    (erase k r).filter (fun p => P p.1) = r.filter (fun p => P p.1) := by
+  induction r with
+  | nil => rfl
+  | cons q t ih =>
+    obtain ⟨k', f'⟩ := q
+    by_cases h : k' = k
+    · subst h; simp [erase, List.filter_cons, hk]
+    · by_cases hp : P k' = true
+      · simp [erase, h, List.filter_cons, hp, ih]
+      · simp [erase, h, List.filter_cons, hp, ih]
+
+theorem getall_insert_other (pre k : Text) (f : IFrame) (hk : startsWith pre k = false) (s : Id3) :
+    getallPrefix pre (insert k f s) = getallPrefix pre s := filter_insert_out (startsWith pre) k f hk s
+
+theorem getall_erase_other (pre k : Text) (hk : startsWith pre k = false) (s : Id3) :
+    getallPrefix pre (erase k s) = getallPrefix pre s := filter_erase_out (startsWith pre) k hk s
+
+theorem getall_woarPut (l : List Text) : ∀ base : Id3,
+    getallPrefix pWOAR (woarPut l base) = woarPut l (getallPrefix pWOAR base) := by
+  induction l with
+  | nil => intro base; rfl
+  | cons u t ih =>
+    intro base
+    show getallPrefix pWOAR (woarPut t (insert (pWOAR ++ u) (.woar u) base)) = _
+    rw [ih]
+    show _ = woarPut t (insert (pWOAR ++ u) (.woar u) (getallPrefix pWOAR base))
+    congr 1
+    exact filter_insert_in (startsWith pWOAR) _ _ (startsWith_append _ _) base
+
+theorem getall_delall (pre : Text) (s : Id3) : getallPrefix pre (delallPrefix pre s) = [] := by
+  unfold getallPrefix delallPrefix
+  rw [List.filter_filter, List.filter_eq_nil_iff]
+  intro p _; cases startsWith pre p.1 <;> simp
+
+/-- read-back after `website_set` does not depend on what was there -/
+theorem getall_website_set (l : List Text) (s : Id3) :
+    getallPrefix pWOAR (woarPut l (delallPrefix pWOAR s)) = getallPrefix pWOAR (woarPut l (delallPrefix pWOAR [])) := by
+  rw [getall_woarPut, getall_woarPut, getall_delall, getall_delall]
+
+theorem mem_woarPut (l : List Text) : ∀ (base : Id3) (p : Text × IFrame), p ∈ woarPut l base →
+    p ∈ base ∨ ∃ u, p = (pWOAR ++ u, .woar u) := by
+  induction l with
+  | nil => intro base p hp; exact Or.inl hp
+  | cons u t ih =>
+    intro base p hp
+    rcases ih _ p hp with h | h
+    · rcases mem_insert_cases _ _ _ _ h with h' | h'
+      · exact Or.inr ⟨u, h'⟩
+      · exact Or.inl h'
+    · exact Or.inr h
+
+theorem nodup_woarPut (l : List Text) : ∀ base : Id3, NodupKeys base → NodupKeys (woarPut l base) := by
+  induction l with
+  | nil => intro base h; exact h
+  | cons u t ih => intro base h; exact ih _ (nodup_insert _ _ _ h)
+
+theorem class_woar_put (u : Text) : hkClass (pWOAR ++ u) = .woar := by
+  unfold hkClass
+  have h1 : (pWOAR ++ u == kTCON) = false := by simp [pWOAR, kTCON]
+  have h2 : (pWOAR ++ u == [84, 68, 82, 67] || pWOAR ++ u == [84, 68, 79, 82]) = false := by simp [pWOAR]
+  have h3 : (pWOAR ++ u == kTMCL) = false := by simp [pWOAR, kTMCL]
+  have h4 : (pWOAR ++ u == kUFID) = false := by simp [pWOAR, kUFID]
+  simp [h1, h2, h3, h4, startsWith_append]
+
+theorem inv_filter (s : Id3) (hs : EasyId3Inv s) (P : Text × IFrame → Bool) : EasyId3Inv (s.filter P) := by
+  refine ⟨?_, fun p hp => hs.2 p (List.mem_filter.1 hp).1⟩
+  exact List.Nodup.sublist (List.Sublist.map _ List.filter_sublist) hs.1
+
+theorem inv_website_set (l : List Text) (s : Id3) (hs : EasyId3Inv s) :
+    EasyId3Inv (woarPut l (delallPrefix pWOAR s)) := by
+  have hb := inv_filter s hs (fun p => !startsWith pWOAR p.1)
+  refine ⟨nodup_woarPut l _ hb.1, ?_⟩
+  intro p hp
+  rcases mem_woarPut l _ p hp with h | ⟨u, rfl⟩
+  · exact hb.2 p h
+  · simp [frameOK, class_woar_put]
+
+theorem class_woar (hk : Text) (h : startsWith pWOAR hk = true) : hkClass hk = .woar := by
+  unfold hkClass
+  have h1 : (hk == kTCON) = false := by
+    cases hh : hk == kTCON with
+    | false => rfl
+    | true => have := eq_of_beq hh; subst this; exact absurd h (by decide)
+  have h2 : (hk == [84, 68, 82, 67] || hk == [84, 68, 79, 82]) = false := by
+    cases hh : (hk == [84, 68, 82, 67] || hk == [84, 68, 79, 82]) with
+    | false => rfl
+    | true =>
+      rcases Bool.or_eq_true_iff.1 hh with h' | h' <;> (have := eq_of_beq h'; subst this; exact absurd h (by decide))
+  have h3 : (hk == kTMCL) = false := by
+    cases hh : hk == kTMCL with
+    | false => rfl
+    | true => have := eq_of_beq hh; subst this; exact absurd h (by decide)
+  have h4 : (hk == kUFID) = false := by
+    cases hh : hk == kUFID with
+    | false => rfl
+    | true => have := eq_of_beq hh; subst this; exact absurd h (by decide)
+  simp [h1, h2, h3, h4, h]
+
+/-- under the invariant every `WOAR:…` key holds a WOAR frame -/
+theorem web_frames (s : Id3) (hs : EasyId3Inv s) (p : Text × IFrame) (hp : p ∈ getallPrefix pWOAR s) :
+    ∃ u, p.2 = .woar u := by
+  have hm := List.mem_filter.1 hp
+  have hok := hs.2 p hm.1
+  unfold frameOK at hok
+  rw [class_woar p.1 hm.2] at hok
+  cases hf : p.2 <;> simp [hf] at hok
+  exact ⟨_, rfl⟩
+
+theorem web_urls_nil (s : Id3) (hs : EasyId3Inv s) :
+    (getallPrefix pWOAR s).filterMap (fun p => woarUrl p.2) = [] ↔ getallPrefix pWOAR s = [] := by
+  constructor
+  · intro h
+    cases hg : getallPrefix pWOAR s with
+    | nil => rfl
+    | cons p t =>
+      exfalso
+      obtain ⟨u, hu⟩ := web_frames s hs p (by rw [hg]; simp)
+      rw [hg] at h
+      simp [List.filterMap_cons, hu, woarUrl] at h
+  · intro h; rw [h]; rfl
+
+theorem web_get_nil (s : Id3) (e : EIEntry) (kt : Text) (h : e.kind = .website)
+    (hf : (getallPrefix pWOAR s).filterMap (fun p => woarUrl p.2) = []) : eiGet s e kt = .error .key := by
+  unfold eiGet; simp only [h, hf]
+
+theorem web_get_cons (s : Id3) (e : EIEntry) (kt : Text) (h : e.kind = .website) (a : Text) (t : List Text)
+    (hf : (getallPrefix pWOAR s).filterMap (fun p => woarUrl p.2) = a :: t) :
+    eiGet s e kt = .ok (textsVal (a :: t)) := by
+  unfold eiGet; simp only [h, hf]
+
+/-! ### good entries -/
+
+theorem eiGood_cases (e : EIEntry) (h : eiGood e = true) : eiPlain e = true ∨ e.kind = .website := by
+  simp only [eiGood, Bool.or_eq_true, beq_iff_eq] at h; exact h
+
+theorem eiNormKey_good (e : EIEntry) (kt : Text) (hp : eiGood e = true) : eiNormKey e kt = e.key := by
+  unfold eiNormKey
+  rcases eiGood_cases e hp with h | h
+  · unfold eiPlain at h
+    cases hkd : e.kind <;> simp only [hkd] at h ⊢ <;> simp at h
+  · simp [h]
+
+theorem eiGet_kt (s : Id3) (e : EIEntry) (k1 k2 : Text) (hp : eiGood e = true) : eiGet s e k1 = eiGet s e k2 := by
+  unfold eiGet
+  rcases eiGood_cases e hp with h | h
+  · unfold eiPlain at h
+    cases hkd : e.kind <;> simp only [hkd] at h ⊢ <;> simp at h
+  · simp only [h]
+
+theorem eiGoodKey_good (e : EIEntry) (he : e ∈ easyId3Registry) (hp : eiGood e = true) :
     eiGoodKey (.str e.key) = true := by
   simp [eiGoodKey, eiEntryOf_plain e he, hp]
 
-/-- what `norm k = ok κ` means under the guard -/
 theorem normG_ok (k κ : PKey) (h : easyId3PolicyG.norm k = .ok κ) :
-    ∃ e kt, eiEntryOf k = some (e, kt) ∧ eiGoodKey k = true ∧ eiPlain e = true ∧ e ∈ easyId3Registry ∧
+    ∃ e kt, eiEntryOf k = some (e, kt) ∧ eiGoodKey k = true ∧ eiGood e = true ∧ e ∈ easyId3Registry ∧
       κ = .str e.key := by
   simp only [easyId3PolicyG, easyId3Policy] at h
   cases hg : eiGoodKey k with
@@ -325,17 +524,35 @@ theorem normG_ok (k κ : PKey) (h : easyId3PolicyG.norm k = .ok κ) :
       obtain ⟨e, kt⟩ := p
       simp only [he, Except.ok.injEq] at h
       obtain ⟨hp, hm, _, _⟩ := eiEntryOf_good k e kt he hg
-      exact ⟨e, kt, rfl, rfl, hp, hm, by rw [← h, eiNormKey_plain e kt hp]⟩
+      exact ⟨e, kt, rfl, rfl, hp, hm, by rw [← h, eiNormKey_good e kt hp]⟩
 
-theorem normG_plain (e : EIEntry) (he : e ∈ easyId3Registry) (hp : eiPlain e = true) :
+theorem normG_good (e : EIEntry) (he : e ∈ easyId3Registry) (hp : eiGood e = true) :
     easyId3PolicyG.norm (.str e.key) = .ok (.str e.key) := by
-  simp [easyId3PolicyG, easyId3Policy, eiGoodKey_plain e he hp, eiEntryOf_plain e he, eiNormKey_plain e _ hp]
+  simp [easyId3PolicyG, easyId3Policy, eiGoodKey_good e he hp, eiEntryOf_plain e he, eiNormKey_good e _ hp]
 
-theorem getG_plain (s : Id3) (e : EIEntry) (he : e ∈ easyId3Registry) (hp : eiPlain e = true) :
+theorem getG_good (s : Id3) (e : EIEntry) (he : e ∈ easyId3Registry) (hp : eiGood e = true) :
     easyId3ImplG.getitem s (.str e.key) = eiGet s e e.key := by
-  simp [easyId3ImplG, eiGoodKey_plain e he hp, easyId3Get, eiEntryOf_plain e he]
+  simp [easyId3ImplG, eiGoodKey_good e he hp, easyId3Get, eiEntryOf_plain e he]
 
-/-! ### `keys()` under the invariant -/
+/-- under the invariant the getter of a good entry answers `KeyError` or a value -/
+theorem eiGet_good (s : Id3) (hs : EasyId3Inv s) (e : EIEntry) (he : e ∈ easyId3Registry) (hp : eiGood e = true)
+    (kt : Text) : eiGet s e kt = .error .key ∨ ∃ v, eiGet s e kt = .ok v := by
+  rcases eiGood_cases e hp with h | h
+  · exact eiGet_plain s hs e he h kt
+  · cases hf : (getallPrefix pWOAR s).filterMap (fun p => woarUrl p.2) with
+    | nil => left; exact web_get_nil s e kt h hf
+    | cons a t => right; exact ⟨_, web_get_cons s e kt h a t hf⟩
+
+theorem slot_hk (e : EIEntry) (he : e ∈ easyId3Registry) (hp : eiPlain e = true) :
+    ∃ hk, hkOf e = some hk ∧ startsWith pWOAR hk = false := by
+  have h1 : easyId3Registry.all (fun e => !eiPlain e || match hkOf e with
+      | some hk => !startsWith pWOAR hk
+      | none => false) = true := by decide +kernel
+  have := List.all_eq_true.1 h1 e he
+  simp only [hp, Bool.not_true, Bool.false_or] at this
+  cases hh : hkOf e with
+  | none => simp [hh] at this
+  | some hk => simp [hh] at this; exact ⟨hk, rfl, this⟩
 
 theorem inv_lookup_none (s : Id3) (hs : EasyId3Inv s) (hk : Text) (hc : ∀ f, frameOK hk f = false) :
     lookup hk s = none := by
@@ -353,11 +570,8 @@ theorem inv_no_rva2star (s : Id3) (hs : EasyId3Inv s) : lookup (pRVA2 ++ [42]) s
     have hc : hkClass (pRVA2 ++ [42]) = .rva2 := by decide
     cases f <;> simp [frameOK, hc])
 
-theorem frameOK_shape (hk : Text) (f : IFrame) (h : frameOK hk f = true) :
-    (∀ u, f ≠ .woar u) ∧ (∀ d c g p, f ≠ .rva2 d c g p) := by
-  constructor
-  · intro u e; subst e; unfold frameOK at h; cases hkClass hk <;> simp at h
-  · intro d c g p e; subst e; unfold frameOK at h; cases hkClass hk <;> simp at h
+theorem frameOK_not_rva2 (hk : Text) (f : IFrame) (h : frameOK hk f = true) : ∀ d c g p, f ≠ .rva2 d c g p := by
+  intro d c g p e; subst e; unfold frameOK at h; cases hkClass hk <;> simp at h
 
 theorem performerKeys_inv (s : Id3) (hs : EasyId3Inv s) : performerKeys s = [] := by
   simp [performerKeys, peopleOf, inv_no_tmcl s hs]
@@ -368,31 +582,17 @@ theorem gainKeys_inv (s : Id3) (hs : EasyId3Inv s) : gainKeys s = [] := by
   intro l hl
   obtain ⟨p, hp, rfl⟩ := List.mem_map.1 hl
   have hm : p ∈ s := (List.mem_filter.1 hp).1
-  have := (frameOK_shape p.1 p.2 (hs.2 p hm)).2
+  have := frameOK_not_rva2 p.1 p.2 (hs.2 p hm)
   cases hf : p.2 <;> simp [hf]
   exact absurd hf (this _ _ _ _)
 
-theorem websiteGet_inv (s : Id3) (hs : EasyId3Inv s) (e : EIEntry) (kt : Text) (h : e.kind = .website) :
-    eiGet s e kt = .error .key := by
-  unfold eiGet
-  simp only [h]
-  have : (getallPrefix pWOAR s).filterMap (fun p => woarUrl p.2) = [] := by
-    rw [List.filterMap_eq_nil_iff]
-    intro p hp
-    have hm : p ∈ s := (List.mem_filter.1 hp).1
-    have := (frameOK_shape p.1 p.2 (hs.2 p hm)).1
-    cases hf : p.2 <;> simp [hf, woarUrl]
-    exact absurd hf (this _)
-  rw [this]
-
-
 /-- under the invariant, what one key of `Get` contributes to `keys()` -/
 theorem eiKeysOf_inv (s : Id3) (hs : EasyId3Inv s) (e : EIEntry) (he : e ∈ easyId3Registry) :
-    eiKeysOf s e = if eiPlain e && (eiGet s e e.key).toOption.isSome then [e.key] else [] := by
+    eiKeysOf s e = if eiGood e && (eiGet s e e.key).toOption.isSome then [e.key] else [] := by
   unfold eiKeysOf
   cases hkd : e.kind with
-  | performer => simp [eiPlain, hkd, performerKeys_inv s hs]
-  | gain => simp [eiPlain, hkd, gainKeys_inv s hs]
+  | performer => simp [eiGood, eiPlain, hkd, performerKeys_inv s hs]
+  | gain => simp [eiGood, eiPlain, hkd, gainKeys_inv s hs]
   | peak =>
     have hkey : e.key = pReplaygain ++ [42] ++ sPeak := by
       have : easyId3Registry.all (fun e => !(e.kind == .peak) || e.key == pReplaygain ++ [42] ++ sPeak) = true := by
@@ -403,19 +603,14 @@ theorem eiKeysOf_inv (s : Id3) (hs : EasyId3Inv s) (e : EIEntry) (he : e ∈ eas
       simp only [easyId3Get, eiEntryOf_plain e he, eiGet, hkd]
       have hd : descOf e.key = [42] := by rw [hkey]; decide
       rw [hd, inv_no_rva2star s hs]
-    simp [eiPlain, hkd, hg]
-  | website =>
-    have hg : easyId3Get s (.str e.key) = .error .key := by
-      simp only [easyId3Get, eiEntryOf_plain e he]
-      exact websiteGet_inv s hs e _ hkd
-    simp [eiPlain, hkd, hg]
+    simp [eiGood, eiPlain, hkd, hg]
   | _ =>
-    have hp : eiPlain e = true := by simp [eiPlain, hkd]
+    have hp : eiGood e = true := by simp [eiGood, eiPlain, hkd]
     have hg : easyId3Get s (.str e.key) = eiGet s e e.key := by simp [easyId3Get, eiEntryOf_plain e he]
     rw [hg]
-    rcases eiGet_plain s hs e he hp e.key with h1 | ⟨v, h1⟩ <;> simp [hp, h1, Except.toOption]
+    rcases eiGet_good s hs e he hp e.key with h1 | ⟨v, h1⟩ <;> simp [hp, h1, Except.toOption]
 
-def eiShown (s : Id3) (e : EIEntry) : Bool := eiPlain e && (eiGet s e e.key).toOption.isSome
+def eiShown (s : Id3) (e : EIEntry) : Bool := eiGood e && (eiGet s e e.key).toOption.isSome
 
 theorem flatten_singletons {α β : Type} (l : List α) (q : α → Bool) (g : α → β) (f : α → List β)
     (h : ∀ a ∈ l, f a = if q a then [g a] else []) : (l.map f).flatten = (l.filter q).map g := by
@@ -466,14 +661,137 @@ theorem inv_insert (s : Id3) (hs : EasyId3Inv s) (hk : Text) (f : IFrame) (hf : 
 theorem inv_erase (s : Id3) (hs : EasyId3Inv s) (hk : Text) : EasyId3Inv (erase hk s) :=
   ⟨nodup_erase _ _ hs.1, fun p hp => hs.2 p (mem_of_mem_erase _ _ _ hp)⟩
 
-/-- reading of entry `e2` after the frame of entry `e` changed -/
-theorem get_after (s s' : Id3) (e e2 : EIEntry) (he : e ∈ easyId3Registry) (he2 : e2 ∈ easyId3Registry)
-    (hp : eiPlain e = true) (hp2 : eiPlain e2 = true) (hk : Text) (h : hkOf e = some hk)
-    (hl : ∀ k2, k2 ≠ hk → lookup k2 s' = lookup k2 s) (hne : e ≠ e2) :
-    eiGet s' e2 e2.key = eiGet s e2 e2.key := by
-  obtain ⟨hk2, h2⟩ := hk_of_plain e2 he2 hp2
-  have : hk2 ≠ hk := fun heq => hne (hk_inj e e2 he he2 hp hp2 hk h (heq ▸ h2))
-  exact eiGet_congr s' s e2 e2.key hk2 h2 (hl hk2 this)
+
+/-- the reading of a good entry does not change when the native tags change elsewhere: outside
+its own HashKey (single-frame entries) resp. outside the `WOAR:` keys (`website`) -/
+theorem eiGet_frame (s s' : Id3) (e2 : EIEntry) (he2 : e2 ∈ easyId3Registry) (hg2 : eiGood e2 = true) (k2 : Text)
+    (hslot : ∀ hk, hkOf e2 = some hk → lookup hk s' = lookup hk s)
+    (hweb : e2.kind = .website → getallPrefix pWOAR s' = getallPrefix pWOAR s) :
+    eiGet s' e2 k2 = eiGet s e2 k2 := by
+  rcases eiGood_cases e2 hg2 with h | h
+  · obtain ⟨hk2, h2, _⟩ := slot_hk e2 he2 h
+    exact eiGet_congr s' s e2 k2 hk2 h2 (hslot hk2 h2)
+  · exact eiGet_web_congr s' s e2 k2 h (hweb h)
+
+/-- what the setter of a good entry does, for all states at once -/
+theorem ei_set_effect (e : EIEntry) (he : e ∈ easyId3Registry) (hg : eiGood e = true) (kt : Text) (v : PVal) :
+    (∃ err, ∀ s0, eiSet s0 e kt v = (.error err, s0)) ∨
+    (∃ T : Id3 → Id3, (∀ s0, eiSet s0 e kt v = (.ok (), T s0)) ∧ (∀ s0, EasyId3Inv s0 → EasyId3Inv (T s0)) ∧
+      (∀ s0 e2 k2, e2 ∈ easyId3Registry → eiGood e2 = true → e2 ≠ e → eiGet (T s0) e2 k2 = eiGet s0 e2 k2) ∧
+      (∀ s0, eiGet (T s0) e kt = eiGet (T []) e kt)) := by
+  rcases eiGood_cases e hg with hp | hw
+  · obtain ⟨hk, hhk, hnw⟩ := slot_hk e he hp
+    cases hf : slotFrame e v with
+    | error err =>
+      left; exact ⟨err, fun s0 => by rw [eiSet_slot s0 e kt v hk hhk hp, hf]⟩
+    | ok f =>
+      right
+      have hok := slotFrame_ok e he v f hk hhk hf
+      refine ⟨fun s0 => insert hk f s0, fun s0 => by rw [eiSet_slot s0 e kt v hk hhk hp, hf],
+        fun s0 hs0 => inv_insert s0 hs0 hk f hok, ?_, ?_⟩
+      · intro s0 e2 k2 he2 hg2 hne
+        apply eiGet_frame _ _ e2 he2 hg2 k2
+        · intro hk2 h2
+          have hp2 : eiPlain e2 = true := by
+            rcases eiGood_cases e2 hg2 with h | h
+            · exact h
+            · simp [hkOf, h] at h2
+          have : ¬ hk = hk2 := fun heq => hne (hk_inj e e2 he he2 hp hp2 hk hhk (heq ▸ h2)).symm
+          rw [lookup_insert]; simp [this]
+        · intro _; exact getall_insert_other pWOAR hk f hnw s0
+      · intro s0
+        exact eiGet_congr _ _ e kt hk hhk (by rw [lookup_insert, lookup_insert]; simp)
+  · -- website
+    unfold eiSet
+    cases hi : eiItems v with
+    | none => left; exact ⟨.notImplemented, fun s0 => rfl⟩
+    | some items =>
+      cases ht : eiTexts items with
+      | none => left; exact ⟨.notImplemented, fun s0 => by simp only [hw, ht]⟩
+      | some l =>
+        right
+        refine ⟨fun s0 => woarPut l (delallPrefix pWOAR s0), fun s0 => by simp only [hw, ht],
+          fun s0 hs0 => inv_website_set l s0 hs0, ?_, ?_⟩
+        · intro s0 e2 k2 he2 hg2 hne
+          apply eiGet_frame _ _ e2 he2 hg2 k2
+          · intro hk2 h2
+            have hp2 : eiPlain e2 = true := by
+              rcases eiGood_cases e2 hg2 with h | h
+              · exact h
+              · simp [hkOf, h] at h2
+            obtain ⟨hk2', h2', hnw⟩ := slot_hk e2 he2 hp2
+            rw [h2] at h2'; injection h2' with h2'; subst h2'
+            rw [lookup_woarPut_other hk2 hnw, lookup_delall]; simp [hnw]
+          · intro hw2
+            exfalso; apply hne
+            have h1 : easyId3Registry.all (fun x => !(x.kind == .website) || x.key == [119, 101, 98, 115, 105, 116, 101]) = true := by
+              decide +kernel
+            have a := List.all_eq_true.1 h1 e he
+            have b := List.all_eq_true.1 h1 e2 he2
+            simp [hw, hw2] at a b
+            exact str_key_inj e2 e he2 he (b.trans a.symm)
+        · intro s0
+          exact eiGet_web_congr _ _ e kt hw (getall_website_set l s0)
+
+/-- what the deleter of a good entry does -/
+theorem ei_del_effect (s : Id3) (hs : EasyId3Inv s) (e : EIEntry) (he : e ∈ easyId3Registry) (hg : eiGood e = true)
+    (kt : Text) :
+    (eiGet s e kt = .error .key → eiDel s e kt = .error .key) ∧
+    (∀ v, eiGet s e kt = .ok v → ∃ s', eiDel s e kt = .ok s' ∧ EasyId3Inv s' ∧ eiGet s' e kt = .error .key ∧
+      ∀ e2 k2, e2 ∈ easyId3Registry → eiGood e2 = true → e2 ≠ e → eiGet s' e2 k2 = eiGet s e2 k2) := by
+  rcases eiGood_cases e hg with hp | hw
+  · obtain ⟨hk, hhk, hnw⟩ := slot_hk e he hp
+    rw [eiDel_slot s e kt hk hhk hp]
+    cases hl : lookup hk s with
+    | none => exact ⟨fun _ => rfl, fun v hv => by rw [eiGet_none s e kt hk hhk hl] at hv; cases hv⟩
+    | some f =>
+      refine ⟨fun h => ?_, fun v hv => ⟨erase hk s, rfl, inv_erase s hs hk, ?_, ?_⟩⟩
+      · obtain ⟨v, hv⟩ := eiGet_some s hs e he hp kt hk f hhk hl
+        rw [hv] at h; cases h
+      · exact eiGet_none _ e kt hk hhk (by rw [lookup_erase _ _ _ hs.1]; simp)
+      · intro e2 k2 he2 hg2 hne
+        apply eiGet_frame _ _ e2 he2 hg2 k2
+        · intro hk2 h2
+          have hp2 : eiPlain e2 = true := by
+            rcases eiGood_cases e2 hg2 with h | h
+            · exact h
+            · simp [hkOf, h] at h2
+          have : hk ≠ hk2 := fun heq => hne (hk_inj e e2 he he2 hp hp2 hk hhk (heq ▸ h2)).symm
+          exact lookup_erase_ne _ _ _ this
+        · intro _; exact getall_erase_other pWOAR hk hnw s
+  · cases hga : getallPrefix pWOAR s with
+    | nil =>
+      have hdel : eiDel s e kt = .error .key := by unfold eiDel; simp only [hw, hga]
+      rw [hdel]
+      refine ⟨fun _ => rfl, fun v hv => ?_⟩
+      rw [web_get_nil s e kt hw (by rw [hga]; rfl)] at hv; cases hv
+    | cons p t =>
+      have hdel : eiDel s e kt = .ok (delallPrefix pWOAR s) := by unfold eiDel; simp only [hw, hga]
+      rw [hdel]
+      refine ⟨fun h => ?_, fun v hv => ⟨delallPrefix pWOAR s, rfl, inv_filter s hs _, ?_, ?_⟩⟩
+      · exfalso
+        cases hfm : (getallPrefix pWOAR s).filterMap (fun p => woarUrl p.2) with
+        | nil => rw [(web_urls_nil s hs).1 hfm] at hga; cases hga
+        | cons a r => rw [web_get_cons s e kt hw a r hfm] at h; cases h
+      · exact web_get_nil _ e kt hw (by rw [getall_delall]; rfl)
+      · intro e2 k2 he2 hg2 hne
+        apply eiGet_frame _ _ e2 he2 hg2 k2
+        · intro hk2 h2
+          have hp2 : eiPlain e2 = true := by
+            rcases eiGood_cases e2 hg2 with h | h
+            · exact h
+            · simp [hkOf, h] at h2
+          obtain ⟨hk2', h2', hnw⟩ := slot_hk e2 he2 hp2
+          rw [h2] at h2'; injection h2' with h2'; subst h2'
+          rw [lookup_delall]; simp [hnw]
+        · intro hw2
+          exfalso; apply hne
+          have h1 : easyId3Registry.all (fun x => !(x.kind == .website) || x.key == [119, 101, 98, 115, 105, 116, 101]) = true := by
+            decide +kernel
+          have a := List.all_eq_true.1 h1 e he
+          have b := List.all_eq_true.1 h1 e2 he2
+          simp [hw, hw2] at a b
+          exact str_key_inj e2 e he2 he (b.trans a.symm)
 
 theorem easyid3_viewlaws : ViewLaws easyId3ImplG easyId3PolicyG EasyId3Inv where
   keys_nodup := keys_nodup_inv
@@ -482,27 +800,27 @@ theorem easyid3_viewlaws : ViewLaws easyId3ImplG easyId3PolicyG EasyId3Inv where
     rw [easyId3Keys_inv s hs, List.mem_map] at hκ
     obtain ⟨e, hm, rfl⟩ := hκ
     have hm' := List.mem_filter.1 hm
-    have hp : eiPlain e = true := by
+    have hp : eiGood e = true := by
       have := hm'.2; simp only [eiShown, Bool.and_eq_true] at this; exact this.1
-    exact normG_plain e hm'.1 hp
+    exact normG_good e hm'.1 hp
   keys_get := fun s hs κ hκ => by
     obtain ⟨e, kt, _, _, hp, he, rfl⟩ := normG_ok κ κ hκ
     show PKey.str e.key ∈ easyId3Keys s ↔ _
-    rw [mem_keys_inv s hs e he, getG_plain s e he hp]
+    rw [mem_keys_inv s hs e he, getG_good s e he hp]
     simp only [eiShown, hp, Bool.true_and]
     cases eiGet s e e.key <;> simp [Except.toOption]
   get_err := fun s hs κ err hκ hg => by
     obtain ⟨e, kt, _, _, hp, he, rfl⟩ := normG_ok κ κ hκ
-    rw [getG_plain s e he hp] at hg
-    rcases eiGet_plain s hs e he hp e.key with h1 | ⟨v, h1⟩
+    rw [getG_good s e he hp] at hg
+    rcases eiGet_good s hs e he hp e.key with h1 | ⟨v, h1⟩
     · rw [h1] at hg; injection hg with hg; exact hg.symm
     · rw [h1] at hg; cases hg
   norm_idem := fun k κ h => by
     obtain ⟨e, kt, _, _, hp, he, rfl⟩ := normG_ok k κ h
-    exact normG_plain e he hp
+    exact normG_good e he hp
   get_norm := fun s k κ hs h => by
     obtain ⟨e, kt, hent, hg, hp, he, rfl⟩ := normG_ok k κ h
-    rw [getG_plain s e he hp]
+    rw [getG_good s e he hp]
     simp only [easyId3ImplG, hg, ↓reduceIte, easyId3Get, hent]
     exact eiGet_kt s e kt e.key hp
   bad_key := fun s k err hs h => by
@@ -523,96 +841,166 @@ theorem easyid3_viewlaws : ViewLaws easyId3ImplG easyId3PolicyG EasyId3Inv where
         simp [easyId3ImplG, hg, easyId3Get, easyId3Set, easyId3SetFull, easyId3Del, hent]
   set_err := fun s k κ v err hs hn hc => by
     obtain ⟨e, kt, hent, hg, hp, he, rfl⟩ := normG_ok k κ hn
-    obtain ⟨hk, hhk⟩ := hk_of_plain e he hp
-    simp only [easyId3PolicyG, easyId3Policy, hent, eiCoerce, eiSet_slot [] e kt v hk hhk hp] at hc
-    simp only [easyId3ImplG, hg, ↓reduceIte, easyId3Set, easyId3SetFull, hent, eiSet_slot s e kt v hk hhk hp]
-    cases hf : slotFrame e v with
-    | error e' => simp only [hf] at hc ⊢; simpa using hc
-    | ok f =>
-      exfalso
-      simp only [hf] at hc
-      have hok := slotFrame_ok e he v f hk hhk hf
-      obtain ⟨vv, hvv⟩ := eiGet_some (insert hk f []) (inv_insert [] easyId3Inv_nil hk f hok) e he hp kt hk f hhk
-        (by rw [lookup_insert]; simp)
-      simp [hvv] at hc
+    simp only [easyId3PolicyG, easyId3Policy, hent, eiCoerce] at hc
+    simp only [easyId3ImplG, hg, ↓reduceIte, easyId3Set, easyId3SetFull, hent]
+    rcases ei_set_effect e he hp kt v with ⟨err', h1⟩ | ⟨T, h1, h2, h3, h4⟩
+    · rw [h1 []] at hc; rw [h1 s]
+      simpa using hc
+    · exfalso
+      rw [h1 []] at hc
+      rcases eiGet_good (T []) (h2 [] easyId3Inv_nil) e he hp kt with h5 | ⟨vv, h5⟩ <;> simp [h5] at hc
   set_some := fun s k κ v v' hs hn hc => by
     obtain ⟨e, kt, hent, hg, hp, he, rfl⟩ := normG_ok k κ hn
-    obtain ⟨hk, hhk⟩ := hk_of_plain e he hp
-    simp only [easyId3PolicyG, easyId3Policy, hent, eiCoerce, eiSet_slot [] e kt v hk hhk hp] at hc
-    cases hf : slotFrame e v with
-    | error e' => simp [hf] at hc
-    | ok f =>
-      simp only [hf] at hc
-      have hok := slotFrame_ok e he v f hk hhk hf
-      obtain ⟨vv, hvv⟩ := eiGet_some (insert hk f []) (inv_insert [] easyId3Inv_nil hk f hok) e he hp kt hk f hhk
-        (by rw [lookup_insert]; simp)
-      simp only [hvv, Except.ok.injEq, Option.some.injEq] at hc
-      subst hc
-      refine ⟨insert hk f s, ?_, inv_insert s hs hk f hok, ?_⟩
-      · simp [easyId3ImplG, hg, easyId3Set, easyId3SetFull, hent, eiSet_slot s e kt v hk hhk hp, hf]
+    simp only [easyId3PolicyG, easyId3Policy, hent, eiCoerce] at hc
+    rcases ei_set_effect e he hp kt v with ⟨err', h1⟩ | ⟨T, h1, h2, h3, h4⟩
+    · rw [h1 []] at hc; simp at hc
+    · rw [h1 []] at hc
+      have hread : eiGet (T []) e kt = .ok v' := by
+        rcases eiGet_good (T []) (h2 [] easyId3Inv_nil) e he hp kt with h5 | ⟨vv, h5⟩ <;> simp [h5] at hc
+        rw [h5, hc]
+      refine ⟨T s, ?_, h2 s hs, ?_⟩
+      · simp [easyId3ImplG, hg, easyId3Set, easyId3SetFull, hent, h1 s]
       · intro κ2 hn2
         obtain ⟨e2, kt2, _, _, hp2, he2, rfl⟩ := normG_ok κ2 κ2 hn2
-        rw [getG_plain _ e2 he2 hp2, getG_plain _ e2 he2 hp2]
+        rw [getG_good _ e2 he2 hp2, getG_good _ e2 he2 hp2]
         by_cases heq : e = e2
         · subst heq
           simp only [↓reduceIte]
-          rw [← hvv, eiGet_kt _ e e.key kt hp]
-          exact eiGet_congr _ _ e kt hk hhk (by rw [lookup_insert, lookup_insert]; simp)
+          rw [eiGet_kt _ e e.key kt hp, h4 s, hread]
         · have hne : ¬ PKey.str e.key = PKey.str e2.key := fun h => heq (str_key_inj e e2 he he2 (by injection h))
           simp only [hne, ↓reduceIte]
-          exact get_after s _ e e2 he he2 hp hp2 hk hhk (fun k2 hk2 => by
-            rw [lookup_insert]; have : ¬ hk = k2 := fun h => hk2 h.symm
-            simp [this]) heq
+          exact h3 s e2 e2.key he2 hp2 (fun h => heq h.symm)
   set_none := fun s k κ v hs hn hc => by
-    exfalso
     obtain ⟨e, kt, hent, hg, hp, he, rfl⟩ := normG_ok k κ hn
-    obtain ⟨hk, hhk⟩ := hk_of_plain e he hp
-    simp only [easyId3PolicyG, easyId3Policy, hent, eiCoerce, eiSet_slot [] e kt v hk hhk hp] at hc
-    cases hf : slotFrame e v with
-    | error e' => simp [hf] at hc
-    | ok f =>
-      simp only [hf] at hc
-      have hok := slotFrame_ok e he v f hk hhk hf
-      obtain ⟨vv, hvv⟩ := eiGet_some (insert hk f []) (inv_insert [] easyId3Inv_nil hk f hok) e he hp kt hk f hhk
-        (by rw [lookup_insert]; simp)
-      simp [hvv] at hc
+    simp only [easyId3PolicyG, easyId3Policy, hent, eiCoerce] at hc
+    rcases ei_set_effect e he hp kt v with ⟨err', h1⟩ | ⟨T, h1, h2, h3, h4⟩
+    · rw [h1 []] at hc; simp at hc
+    · rw [h1 []] at hc
+      have hread : eiGet (T []) e kt = .error .key := by
+        rcases eiGet_good (T []) (h2 [] easyId3Inv_nil) e he hp kt with h5 | ⟨vv, h5⟩
+        · exact h5
+        · simp [h5] at hc
+      refine ⟨T s, ?_, h2 s hs, ?_⟩
+      · simp [easyId3ImplG, hg, easyId3Set, easyId3SetFull, hent, h1 s]
+      · intro κ2 hn2
+        obtain ⟨e2, kt2, _, _, hp2, he2, rfl⟩ := normG_ok κ2 κ2 hn2
+        rw [getG_good _ e2 he2 hp2, getG_good _ e2 he2 hp2]
+        by_cases heq : e = e2
+        · subst heq
+          simp only [↓reduceIte]
+          rw [eiGet_kt _ e e.key kt hp, h4 s, hread]
+        · have hne : ¬ PKey.str e.key = PKey.str e2.key := fun h => heq (str_key_inj e e2 he he2 (by injection h))
+          simp only [hne, ↓reduceIte]
+          exact h3 s e2 e2.key he2 hp2 (fun h => heq h.symm)
   del_absent := fun s k κ hs hn hg0 => by
     obtain ⟨e, kt, hent, hg, hp, he, rfl⟩ := normG_ok k κ hn
-    obtain ⟨hk, hhk⟩ := hk_of_plain e he hp
-    rw [getG_plain s e he hp] at hg0
-    simp only [easyId3ImplG, hg, ↓reduceIte, easyId3Del, hent, eiDel_slot s e kt hk hhk hp]
-    cases hl : lookup hk s with
-    | none => rfl
-    | some f =>
-      obtain ⟨v, hv⟩ := eiGet_some s hs e he hp e.key hk f hhk hl
-      rw [hv] at hg0; cases hg0
+    rw [getG_good s e he hp, eiGet_kt s e e.key kt hp] at hg0
+    simp only [easyId3ImplG, hg, ↓reduceIte, easyId3Del, hent]
+    exact (ei_del_effect s hs e he hp kt).1 hg0
   del_present := fun s k κ v hs hn hg0 => by
     obtain ⟨e, kt, hent, hg, hp, he, rfl⟩ := normG_ok k κ hn
-    obtain ⟨hk, hhk⟩ := hk_of_plain e he hp
-    rw [getG_plain s e he hp] at hg0
-    cases hl : lookup hk s with
-    | none => rw [eiGet_none s e e.key hk hhk hl] at hg0; cases hg0
-    | some f =>
-      refine ⟨erase hk s, ?_, inv_erase s hs hk, ?_⟩
-      · simp [easyId3ImplG, hg, easyId3Del, hent, eiDel_slot s e kt hk hhk hp, hl]
-      · intro κ2 hn2
-        obtain ⟨e2, kt2, _, _, hp2, he2, rfl⟩ := normG_ok κ2 κ2 hn2
-        rw [getG_plain _ e2 he2 hp2, getG_plain _ e2 he2 hp2]
-        by_cases heq : e = e2
-        · subst heq
-          simp only [↓reduceIte]
-          exact eiGet_none _ e e.key hk hhk (by rw [lookup_erase _ _ _ hs.1]; simp)
-        · have hne : ¬ PKey.str e.key = PKey.str e2.key := fun h => heq (str_key_inj e e2 he he2 (by injection h))
-          simp only [hne, ↓reduceIte]
-          exact get_after s _ e e2 he he2 hp hp2 hk hhk (fun k2 hk2 => lookup_erase_ne _ _ _ (fun h => hk2 h.symm)) heq
-
+    rw [getG_good s e he hp, eiGet_kt s e e.key kt hp] at hg0
+    obtain ⟨s', h1, h2, h3, h4⟩ := (ei_del_effect s hs e he hp kt).2 v hg0
+    refine ⟨s', ?_, h2, ?_⟩
+    · simp [easyId3ImplG, hg, easyId3Del, hent, h1]
+    · intro κ2 hn2
+      obtain ⟨e2, kt2, _, _, hp2, he2, rfl⟩ := normG_ok κ2 κ2 hn2
+      rw [getG_good _ e2 he2 hp2, getG_good _ e2 he2 hp2]
+      by_cases heq : e = e2
+      · subst heq
+        simp only [↓reduceIte]
+        rw [eiGet_kt _ e e.key kt hp, h3]
+      · have hne : ¬ PKey.str e.key = PKey.str e2.key := fun h => heq (str_key_inj e e2 he he2 (by injection h))
+        simp only [hne, ↓reduceIte]
+        exact h4 e2 e2.key he2 hp2 (fun h => heq h.symm)
 
 theorem easyid3_refines_aux : KRefines easyId3ImplG easyId3PolicyG EasyId3Inv (viewAbs easyId3ImplG) :=
   view_refines easyid3_viewlaws
 
+/-! ### the guarded store is the model on good keys: run congruence -/
+
+theorem easyid3_guardOf : GuardOf eiGoodKey easyId3Impl easyId3ImplG where
+  keys := fun s => rfl
+  get := fun s k h => by simp [easyId3ImplG, easyId3Impl, h]
+  set := fun s k v h => by simp [easyId3ImplG, easyId3Impl, h]
+  del := fun s k h => by simp [easyId3ImplG, easyId3Impl, h]
+
+theorem keys_good_inv (s : Id3) (hs : EasyId3Inv s) : ∀ k ∈ easyId3Impl.keys s, eiGoodKey k = true := by
+  intro k hk
+  have hn := easyid3_viewlaws.keys_normal s hs k hk
+  obtain ⟨_, _, _, hg, _⟩ := normG_ok k k hn
+  exact hg
+
+theorem easyid3_run_congr_aux (ops : List (Op PKey PVal)) (s : Id3) (hs : EasyId3Inv s)
+    (hops : ∀ op ∈ ops, ∀ k ∈ Op.keysOf op, eiGoodKey k = true) :
+    easyId3ImplG.run ops s = easyId3Impl.run ops s ∧ easyId3ImplG.exec ops s = easyId3Impl.exec ops s :=
+  guard_run easyid3_guardOf EasyId3Inv keys_good_inv
+    (fun s op hs => (kstep_exact easyid3_refines_aux s hs op).2.1) ops s hs hops
+
+/-- on a good key a raising `__setitem__` leaves the native tags alone (no residue) -/
+theorem setFull_good (s : Id3) (k : PKey) (v : PVal) (hg : eiGoodKey k = true) :
+    (∃ err, easyId3SetFull s k v = (.error err, s)) ∨ (∃ s', easyId3SetFull s k v = (.ok (), s')) := by
+  unfold easyId3SetFull
+  cases hent : eiEntryOf k with
+  | none => left; exact ⟨.key, rfl⟩
+  | some p =>
+    obtain ⟨e, kt⟩ := p
+    obtain ⟨hp, he, _, _⟩ := eiEntryOf_good k e kt hent hg
+    rcases ei_set_effect e he hp kt v with ⟨err, h1⟩ | ⟨T, h1, _⟩
+    · left; exact ⟨err, h1 s⟩
+    · right; exact ⟨T s, h1 s⟩
+
+theorem updateFull_good (l : List (PKey × PVal)) (hl : ∀ p ∈ l, eiGoodKey p.1 = true) :
+    ∀ s, easyId3UpdateFull l s = easyId3Impl.update l s := by
+  induction l with
+  | nil => intro s; rfl
+  | cons p t ih =>
+    obtain ⟨k, v⟩ := p
+    intro s
+    have ih' := ih (fun q hq => hl q (by simp [hq]))
+    simp only [easyId3UpdateFull, MapImpl.update, easyId3Impl, easyId3Set]
+    rcases setFull_good s k v (hl (k, v) (by simp)) with ⟨err, h⟩ | ⟨s', h⟩
+    · simp [h]
+    · simp only [h]; exact ih' s'
+
+/-- on operations that mention good keys only, the real object (`easyId3Step`, with its residues)
+is `DictMixin` over the four primitives -/
+theorem easyId3Step_good (s : Id3) (op : Op PKey PVal) (hop : ∀ k ∈ Op.keysOf op, eiGoodKey k = true) :
+    easyId3Step s op = easyId3Impl.step s op := by
+  cases op with
+  | set k v =>
+    simp only [easyId3Step, MapImpl.step, easyId3Impl, easyId3Set]
+    rcases setFull_good s k v (hop k (by simp [Op.keysOf])) with ⟨err, h⟩ | ⟨s', h⟩ <;> simp [h]
+  | update l =>
+    simp only [easyId3Step, MapImpl.step]
+    rw [updateFull_good l (fun p hp => hop p.1 (by simp only [Op.keysOf]; exact List.mem_map_of_mem hp)) s]
+  | setdefault k d =>
+    simp only [easyId3Step, MapImpl.step, MapImpl.setdefault, easyId3Impl, easyId3Set]
+    cases easyId3Get s k with
+    | ok v => rfl
+    | error e =>
+      by_cases he : e = .key
+      · simp only [he, ↓reduceIte]
+        rcases setFull_good s k d (hop k (by simp [Op.keysOf])) with ⟨err, h⟩ | ⟨s', h⟩ <;> simp [h, outOf]
+      · simp [he, outOf]
+  | _ => rfl
+
+theorem easyid3_real_run_congr_aux (ops : List (Op PKey PVal)) : ∀ (s : Id3), EasyId3Inv s →
+    (∀ op ∈ ops, ∀ k ∈ Op.keysOf op, eiGoodKey k = true) → easyId3Run ops s = easyId3ImplG.run ops s := by
+  induction ops with
+  | nil => intro s _ _; rfl
+  | cons op t ih =>
+    intro s hs hall
+    have h1 := easyId3Step_good s op (hall op (by simp))
+    have h2 := guard_step easyid3_guardOf s (keys_good_inv s hs) op (hall op (by simp))
+    simp only [easyId3Run, MapImpl.run, h1, ← h2]
+    rw [ih _ (kstep_exact easyid3_refines_aux s hs op).2.1 (fun o ho => hall o (by simp [ho]))]
+
 /-- the native side of a successful `view[k] = v` on a good key -/
 theorem easySetG_native (s s' : Id3) (k : PKey) (v : PVal) (h : easyId3ImplG.setitem s k v = .ok s') :
-    ∃ e kt hk f, eiEntryOf k = some (e, kt) ∧ hkOf e = some hk ∧ slotFrame e v = .ok f ∧ s' = insert hk f s := by
+    ∃ e kt, eiEntryOf k = some (e, kt) ∧
+      ((∃ hk f, hkOf e = some hk ∧ eiPlain e = true ∧ slotFrame e v = .ok f ∧ s' = insert hk f s) ∨
+       (e.kind = .website ∧ ∃ l, s' = woarPut l (delallPrefix pWOAR s))) := by
   simp only [easyId3ImplG] at h
   cases hg : eiGoodKey k with
   | false => simp [hg] at h
@@ -623,16 +1011,33 @@ theorem easySetG_native (s s' : Id3) (k : PKey) (v : PVal) (h : easyId3ImplG.set
     | some p =>
       obtain ⟨e, kt⟩ := p
       obtain ⟨hp, he, _, _⟩ := eiEntryOf_good k e kt hent hg
-      obtain ⟨hk, hhk⟩ := hk_of_plain e he hp
-      simp only [hent, eiSet_slot s e kt v hk hhk hp] at h
-      cases hf : slotFrame e v with
-      | error err => simp [hf] at h
-      | ok f =>
-        simp only [hf, Except.ok.injEq] at h
-        exact ⟨e, kt, hk, f, rfl, hhk, hf, h.symm⟩
+      refine ⟨e, kt, rfl, ?_⟩
+      simp only [hent] at h
+      rcases eiGood_cases e hp with hpl | hw
+      · left
+        obtain ⟨hk, hhk, _⟩ := slot_hk e he hpl
+        simp only [eiSet_slot s e kt v hk hhk hpl] at h
+        cases hf : slotFrame e v with
+        | error err => simp [hf] at h
+        | ok f =>
+          simp only [hf, Except.ok.injEq] at h
+          exact ⟨hk, f, hhk, hpl, rfl, h.symm⟩
+      · right
+        refine ⟨hw, ?_⟩
+        unfold eiSet at h
+        cases hi : eiItems v with
+        | none => simp [hi] at h
+        | some items =>
+          cases ht : eiTexts items with
+          | none => simp [hi, hw, ht] at h
+          | some l =>
+            simp only [hi, hw, ht, Except.ok.injEq] at h
+            exact ⟨l, h.symm⟩
 
 theorem easyDelG_native (s s' : Id3) (k : PKey) (h : easyId3ImplG.delitem s k = .ok s') :
-    ∃ e kt hk, eiEntryOf k = some (e, kt) ∧ hkOf e = some hk ∧ s' = erase hk s := by
+    ∃ e kt, eiEntryOf k = some (e, kt) ∧
+      ((∃ hk, hkOf e = some hk ∧ eiPlain e = true ∧ s' = erase hk s) ∨
+       (e.kind = .website ∧ s' = delallPrefix pWOAR s)) := by
   simp only [easyId3ImplG] at h
   cases hg : eiGoodKey k with
   | false => simp [hg] at h
@@ -643,15 +1048,25 @@ theorem easyDelG_native (s s' : Id3) (k : PKey) (h : easyId3ImplG.delitem s k = 
     | some p =>
       obtain ⟨e, kt⟩ := p
       obtain ⟨hp, he, _, _⟩ := eiEntryOf_good k e kt hent hg
-      obtain ⟨hk, hhk⟩ := hk_of_plain e he hp
-      simp only [hent, eiDel_slot s e kt hk hhk hp] at h
-      cases hl : lookup hk s with
-      | none => simp [hl] at h
-      | some f =>
-        simp only [hl, Except.ok.injEq] at h
-        exact ⟨e, kt, hk, rfl, hhk, h.symm⟩
+      refine ⟨e, kt, rfl, ?_⟩
+      simp only [hent] at h
+      rcases eiGood_cases e hp with hpl | hw
+      · left
+        obtain ⟨hk, hhk, _⟩ := slot_hk e he hpl
+        simp only [eiDel_slot s e kt hk hhk hpl] at h
+        cases hl : lookup hk s with
+        | none => simp [hl] at h
+        | some f =>
+          simp only [hl, Except.ok.injEq] at h
+          exact ⟨hk, hhk, hpl, h.symm⟩
+      · right
+        refine ⟨hw, ?_⟩
+        unfold eiDel at h
+        cases hga : getallPrefix pWOAR s with
+        | nil => simp [hw, hga] at h
+        | cons p t => simp only [hw, hga, Except.ok.injEq] at h; exact h.symm
 
-/-- the HashKeys the plain entries own -/
+/-- the HashKeys the single-frame entries own -/
 def easyId3Owned : List Text := easyId3Registry.filterMap (fun e => if eiPlain e then hkOf e else none)
 
 theorem mem_owned (e : EIEntry) (he : e ∈ easyId3Registry) (hp : eiPlain e = true) (hk : Text) (h : hkOf e = some hk) :
@@ -659,27 +1074,31 @@ theorem mem_owned (e : EIEntry) (he : e ∈ easyId3Registry) (hp : eiPlain e = t
   simp only [easyId3Owned, List.mem_filterMap]
   exact ⟨e, he, by simp [hp, h]⟩
 
-theorem easyG_foreign_untouched (ops : List (Op PKey PVal)) (s : Id3) (a : Text) (ha : a ∉ easyId3Owned) :
-    lookup a (easyId3ImplG.exec ops s) = lookup a s := by
+theorem easyG_foreign_untouched (ops : List (Op PKey PVal)) (s : Id3) (a : Text) (ha : a ∉ easyId3Owned)
+    (hw : startsWith pWOAR a = false) : lookup a (easyId3ImplG.exec ops s) = lookup a s := by
   apply exec_preserves easyId3ImplG (fun s' => lookup a s' = lookup a s)
   · intro s0 k v s' hset hq
-    obtain ⟨e, kt, hk, f, hent, hhk, _, rfl⟩ := easySetG_native s0 s' k v hset
     have hg : eiGoodKey k = true := by
       cases hg : eiGoodKey k with
       | true => rfl
       | false => simp [easyId3ImplG, hg] at hset
-    obtain ⟨hp, he, _, _⟩ := eiEntryOf_good k e kt hent hg
-    have hne : ¬ hk = a := fun h => ha (h ▸ mem_owned e he hp hk hhk)
-    rw [lookup_insert]; simp [hne, hq]
+    obtain ⟨e, kt, hent, hcase⟩ := easySetG_native s0 s' k v hset
+    obtain ⟨_, he, _, _⟩ := eiEntryOf_good k e kt hent hg
+    rcases hcase with ⟨hk, f, hhk, hp, _, rfl⟩ | ⟨_, l, rfl⟩
+    · have hne : ¬ hk = a := fun h => ha (h ▸ mem_owned e he hp hk hhk)
+      rw [lookup_insert]; simp [hne, hq]
+    · rw [lookup_woarPut_other a hw, lookup_delall]; simp [hw, hq]
   · intro s0 k s' hdel hq
-    obtain ⟨e, kt, hk, hent, hhk, rfl⟩ := easyDelG_native s0 s' k hdel
     have hg : eiGoodKey k = true := by
       cases hg : eiGoodKey k with
       | true => rfl
       | false => simp [easyId3ImplG, hg] at hdel
-    obtain ⟨hp, he, _, _⟩ := eiEntryOf_good k e kt hent hg
-    have hne : hk ≠ a := fun h => ha (h ▸ mem_owned e he hp hk hhk)
-    rw [lookup_erase_ne _ _ _ hne]; exact hq
+    obtain ⟨e, kt, hent, hcase⟩ := easyDelG_native s0 s' k hdel
+    obtain ⟨_, he, _, _⟩ := eiEntryOf_good k e kt hent hg
+    rcases hcase with ⟨hk, hhk, hp, rfl⟩ | ⟨_, rfl⟩
+    · have hne : hk ≠ a := fun h => ha (h ▸ mem_owned e he hp hk hhk)
+      rw [lookup_erase_ne _ _ _ hne]; exact hq
+    · rw [lookup_delall]; simp [hw, hq]
   · rfl
 
 theorem easyId3KeysE_inv (s : Id3) (hs : EasyId3Inv s) : easyId3KeysE s = .ok (easyId3Keys s) := by
@@ -703,5 +1122,6 @@ theorem easyId3KeysE_inv (s : Id3) (hs : EasyId3Inv s) : easyId3KeysE s = .ok (e
           rw [hg'] at hg
           cases err <;> simp [hg, Except.toOption] at hk herr
   rw [this]
+
 
 end Mutagen.Dict
